@@ -36,6 +36,7 @@ type c02Case struct {
 	Lines   []int  `json:"lines,omitempty"`  // indices into c02Lines
 	Ladder  int    `json:"ladder,omitempty"` // size-ladder case: body of this many bytes
 	FinalNL bool   `json:"final_nl,omitempty"`
+	Eager   bool   `json:"eager,omitempty"` // DATA, the message and the terminator leave in one write
 	MaxKB   int    `json:"maxkb,omitempty"` // memory store with a size limit: a message is kept whole or not at all
 	Show    string `json:"show,omitempty"`
 }
@@ -102,7 +103,12 @@ func c02ExecB(c *fw.Ctx, cas c02Case) (stored bool) {
 	if cas.MaxKB == 0 {
 		d.Cmd("RCPT TO:<c02b@x.test>") // a second mailbox gets its own copy of the same bytes
 	}
-	_, fin := d.Data(body)
+	var fin sys.Reply
+	if cas.Eager {
+		_, fin = d.DataEager(body)
+	} else {
+		_, fin = d.Data(body)
+	}
 	if fin.OK {
 		d.Cmd("QUIT")
 	}
@@ -349,6 +355,7 @@ func c02Run(c *fw.Ctx) {
 			genL = func(cur []int) {
 				if len(cur) > 0 {
 					run(c02Case{Backend: be, Header: hdr, Lines: append([]int{}, cur...)})
+					run(c02Case{Backend: be, Header: hdr, Lines: append([]int{}, cur...), Eager: true})
 				}
 				if len(cur) == 3 {
 					return
@@ -361,6 +368,9 @@ func c02Run(c *fw.Ctx) {
 			for _, sz := range []int{1, 4095, 4096, 4097, 65535, 65536, 65537, 1 << 20, 4 << 20} {
 				for _, nl := range []bool{true, false} {
 					run(c02Case{Backend: be, Header: hdr, Ladder: sz, FinalNL: nl, Show: "ladder"})
+					if sz <= 1<<20 {
+						run(c02Case{Backend: be, Header: hdr, Ladder: sz, FinalNL: nl, Show: "ladder", Eager: true})
+					}
 				}
 			}
 			if be == "mem" {
